@@ -231,7 +231,12 @@ class Ctx:
         return self.tier == "thorough"
 
     def budget(self, quick, thorough):
-        return thorough if self.tier == "thorough" else quick
+        if self.tier == "thorough":
+            return thorough
+        if self.tier == "search" and isinstance(quick, int) and isinstance(thorough, int) and not isinstance(quick, bool) and quick >= 10:
+            # the generic failing-input search: four times the quick sample counts (depths stay as in quick)
+            return min(thorough, quick * 4) if thorough >= quick else thorough
+        return quick
 
     def sample(self, case, limit=6):
         if len(self.samples) < limit:
